@@ -304,6 +304,63 @@ example :
   decide
 
 
+/-! ## `events_spin`
+
+`Top.spin` is a program op like `Top.run`, so `run_admissible_C05` above already speaks about every program that calls
+`events_spin(&done)` any number of times (model: `eventsSpin` = `spinLoop`, the C's `while` loop around `runInternal`,
+sharing `intr`; `done` is set by the op `done` — from a callback or by the program — and cleared by the caller after the
+call).  The monitor judges the whole call without knowing where one turn of the loop ends: the order clauses apply
+unchanged; after a non-zero status nothing runs and that value is returned; after an interrupt request nothing runs and
+0 is returned; 0 is returned otherwise only if `done` is set; `done` set before the call: nothing at all runs; once `done`
+is set no poll that may block is issued; the request is consumed (`spinRet` clears `intr`: a following `run` is judged as
+a fresh call).  Proof (`Proofs/EventsC05Loop.lean`): the invariant `SpinTop rc` at the loop's test — the monitor's `stop`
+is `some rc` (and for 0 an interrupt request is pending or `done` was set before the call), or `rc = 0` and the last turn
+owes no wake-up — gives `BegunS` (what a turn needs: no stop, nothing owed, `done` clear) when the C condition holds
+and `SpinExit` (what `spinRet` checks) when it does not; a turn is `runInternal_weakS`, the `events_run_internal` proof
+started from `BegunS` instead of the state right after `runBegin`. -/
+
+/-- `done` set by the first of two immediates: the turn in progress finishes (the second immediate runs), the loop ends,
+    0 is returned; the following `events_run` is a fresh call -/
+example : run 50 [.script 1 ⟨0, [.done]⟩, .api (.regImm 1 0), .api (.regImm 2 0), .spin, .run] =
+    [.op (.regImm 1 0) .ok, .op (.regImm 2 0) .ok, .spinBegin, .cb 1, .op .done .ok, .cbEnd 0, .cb 2, .cbEnd 0, .spinRet 0,
+     .runBegin, .poll (-1) 0 [] .stuck, .ret 0] := by
+  decide +kernel
+
+/-- two turns (an immediate, then a timer 2 ms ahead whose callback sets `done`); `done` set before the call: nothing
+    runs; a status ends the call and is returned -/
+example : run 50 [.script 2 ⟨0, [.done]⟩, .script 3 ⟨7, []⟩, .api (.regImm 1 0), .api (.regTimer 2 2000), .spin,
+                  .api .done, .api (.regImm 3 0), .spin, .spin] =
+    [.op (.regImm 1 0) .ok, .op (.regTimer 2 2000) .ok,
+     .spinBegin, .cb 1, .cbEnd 0, .poll 2 2000 [] .ok, .poll 0 0 [] .ok, .cb 2, .op .done .ok, .cbEnd 0, .poll 0 0 [] .ok, .spinRet 0,
+     .op .done .ok, .op (.regImm 3 0) .ok, .spinBegin, .spinRet 0,
+     .spinBegin, .cb 3, .cbEnd 7, .spinRet 7] := by
+  decide +kernel
+
+/-- the spin clauses are not vacuous -/
+example :
+    -- `done` set before the call: no callback, no poll
+    C05.admissible [.op .done .ok, .op (.regImm 1 0) .ok, .spinBegin, .cb 1] = false ∧
+    C05.admissible [.op .done .ok, .spinBegin, .poll (-1) 0 [] .stuck] = false ∧
+    C05.admissible [.op .done .ok, .op (.regImm 1 0) .ok, .spinBegin, .spinRet 0] = true ∧
+    -- 0 only with `done` set or after an interrupt request
+    C05.admissible [.op (.regImm 1 0) .ok, .spinBegin, .cb 1, .cbEnd 0, .spinRet 0] = false ∧
+    C05.admissible [.op (.regImm 1 0) .ok, .spinBegin, .cb 1, .op .done .ok, .cbEnd 0, .spinRet 0] = true ∧
+    C05.admissible [.spinBegin, .poll (-1) 0 [] .stuck, .spinRet 0] = true ∧
+    -- the status is returned, and nothing runs after it
+    C05.admissible [.op (.regImm 1 0) .ok, .spinBegin, .cb 1, .cbEnd 7, .spinRet 0] = false ∧
+    C05.admissible [.op (.regImm 1 0) .ok, .spinBegin, .cb 1, .cbEnd 7, .spinRet 7] = true ∧
+    C05.admissible [.op (.regImm 1 0) .ok, .op (.regImm 2 0) .ok, .spinBegin, .cb 1, .cbEnd 7, .cb 2] = false ∧
+    -- once `done` is set no poll that may block; the look between two callbacks is fine
+    C05.admissible [.op (.regImm 1 0) .ok, .spinBegin, .cb 1, .op .done .ok, .cbEnd 0, .poll (-1) 0 [] .stuck] = false ∧
+    C05.admissible [.op (.regTimer 1 0) .ok, .spinBegin, .poll 0 0 [] .ok, .poll 0 0 [] .ok, .cb 1, .op .done .ok, .cbEnd 0,
+                    .poll 0 0 [] .ok, .spinRet 0] = true ∧
+    -- the order clauses apply to the whole call
+    C05.admissible [.op (.regImm 1 5) .ok, .op (.regImm 2 3) .ok, .spinBegin, .cb 1] = false ∧
+    -- the interrupt request is consumed: the next `events_run` is a fresh call and has to run what is runnable
+    C05.admissible [.spinBegin, .poll (-1) 0 [] .stuck, .spinRet 0, .op (.regImm 1 0) .ok, .runBegin, .ret 0] = false ∧
+    C05.admissible [.spinBegin, .poll (-1) 0 [] .stuck, .spinRet 0, .op (.regImm 1 0) .ok, .runBegin, .cb 1, .cbEnd 0, .ret 0] = true := by
+  decide
+
 /-! ## closed form: the timer-queue contract is discharged by the C13 theorems -/
 
 open Percival.Proofs.TQ in
